@@ -1,6 +1,7 @@
 package main
 
 import (
+	"runtime/debug"
 	"bufio"
 	"strings"
 
@@ -109,6 +110,18 @@ func (e *Emitter) Close(dir string, extra map[string]any) {
 	os.WriteFile(dir+"/summary.json", b, 0o644)
 }
 
+// noteInput records the input about to be handed to the library in <out>/current.json, so that a fatal error
+// that no recover can catch (stack overflow, concurrent map write ...) can still be reported with its input.
+var outDirGlobal string
+
+func noteInput(v any) {
+	if outDirGlobal == "" {
+		return
+	}
+	b, _ := json.Marshal(v)
+	os.WriteFile(outDirGlobal+"/current.json", b, 0o644)
+}
+
 type cmdFn func(r *RNG, n int, e *Emitter, args []string)
 
 var commands = map[string]cmdFn{}
@@ -129,6 +142,8 @@ func main() {
 		fmt.Println("unknown command", cmd)
 		os.Exit(2)
 	}
+	outDirGlobal = *out
+	debug.SetMaxStack(256 << 20) // a runaway recursion dies quickly (and is reported through current.json)
 	e := NewEmitter(*out)
 	r := NewRNG(*seed)
 	fn(r, *n, e, fs.Args())
